@@ -304,9 +304,11 @@ def replay(prop, path):
         ev = v.get("case", v).get("event", v.get("case", v))
         inp = os.path.join(wd, "r.in")
         with open(inp, "w") as f:
-            f.write(json.dumps({"toks": ev["toks"], "style": ev["style"], "text": ev["text"],
-                                "wf": ev.get("wf", False), "viol": ev.get("viol", []),
-                                "inprofile": True, "tree": {}}) + "\n")
+            case = {"toks": ev["toks"], "style": ev["style"], "text": ev["text"],
+                    "wf": ev.get("wf", False), "viol": ev.get("viol", []), "inprofile": True, "tree": {}}
+            if "src" in ev:
+                case["src"] = ev["src"]
+            f.write(json.dumps(case) + "\n")
         obs = os.path.join(wd, "r.obs")
         C.run_harness(["doc-replay", "--in", inp, "--out", obs])
         events = C.read_ndjson(obs)
